@@ -3,8 +3,10 @@ copy of the repository; the named property's check must exit 1 and name one of t
 (file, old, new) are plain text substitutions of the first occurrence; a mutant whose `old` text is
 no longer present (because the tree under test was edited) is skipped and counted."""
 M = []
-def m(prop, rules, file, old, new, note=""):
-    M.append({"id": "m%03d" % (len(M) + 1), "property": prop, "rules": rules, "file": file, "old": old, "new": new, "note": note})
+def m(prop, rules, file, old, new, note="", on=None):
+    """on: id of a behaviour-preserving refactoring under /verif/refactorings that is applied first (the mutant then tests a
+    rule on a re-expressed form of the code, which today's tree does not contain)"""
+    M.append({"id": "m%03d" % (len(M) + 1), "property": prop, "rules": rules, "file": file, "old": old, "new": new, "note": note, "on": on})
 
 A = "src/arithmetic.rs"; B = "src/base.rs"; CV = "src/convert.rs"; FR = "src/functions/fraction.rs"; PW = "src/functions/power.rs"
 EX = "src/functions/explog.rs"; TR = "src/functions/trigonometry.rs"; HY = "src/functions/hyperbolic.rs"; SG = "src/functions/sign.rs"
@@ -126,3 +128,10 @@ m("C14", ["R33", "R36"], EX, "            let z = self - y / 2.0;", "           
 m("C14", ["R36"], EX, "assert!(n.abs() <= 32);", "assert!(n.abs() <= 31);", "table assertion tighter than the reduction guarantees (code panics are left to the totality rule by the form rule)")
 m("C07", ["RD"], B, "            let offset = if (bits & MANTISSA_MASK) == 0", "            debug_assert!((1..=2045).contains(&biased_exponent));\n            let offset = if (bits & MANTISSA_MASK) == 0", "a debug assertion on the exponent field that the largest normal numbers violate (the category fact gives 1..=2046, not less)")
 m("C09", ["R24", "RD"], CV, "                Ok(truncated.hi() as $type)", "                debug_assert!(LOWER_BOUND < truncated.hi());\n                Ok(truncated.hi() as $type)", "a debug assertion with a strict bound that T::MIN violates (the range fact is inclusive)")
+# round 8: mutants of re-expressed forms (applied on top of a behaviour-preserving refactoring)
+m("C13", ["R26"], B, "for bit in 0..(u32::BITS - n_pos.leading_zeros()) {", "for bit in 1..(u32::BITS - n_pos.leading_zeros()) {", "indexed powi loop skips bit 0", on="Y0-4")
+m("C13", ["R26"], B, "for bit in 0..(u32::BITS - n_pos.leading_zeros()) {", "for bit in 0..(u32::BITS - 1 - n_pos.leading_zeros()) {", "indexed powi loop stops before the top bit", on="Y0-4")
+m("C13", ["R26"], B, "if ((n_pos >> bit) & 1) != 0 {", "if ((n_pos >> bit) & 1) == 0 {", "indexed powi loop multiplies on clear bits", on="Y0-4")
+m("C13", ["R30"], B, "for bit in 0..(u32::BITS - n_pos.leading_zeros()) {", "for bit in 0..(u32::BITS + 1 - n_pos.leading_zeros()) {", "indexed powi loop shifts by 32 when the top bit is set (i32::MIN)", on="Y0-4")
+m("C05", ["R10", "R10e"], A, "            if i == QUOTIENT_TERMS - 1 {\n                break;\n            }\n            r -= rhs * q[i];\n            i += 1;\n        }\n        renorm3(q[0], q[1], q[2])\n", "            if i == QUOTIENT_TERMS - 2 {\n                break;\n            }\n            r -= rhs * q[i];\n            i += 1;\n        }\n        renorm3(q[0], q[1], q[2])\n", "rolled-up long division stops after two quotient digits", on="Y0-4")
+m("C14", ["R33", "R35"], EX, 'hexf64!("0x1.a61298e1e069cp+0"),  // exp(1/2)^1', 'hexf64!("0x1.a61298e1e069dp+0"),  // exp(1/2)^1', "parallel word tables: one high word of exp(1/2)^k off by one ulp", on="Y1-4")
